@@ -239,3 +239,17 @@ func isCtxMethod(f *ssa.Function, name string) bool {
 	}
 	return false
 }
+
+// constOf returns the decimal value of a package-level integer constant, "" if absent.
+func constOf(p *Program, rel, name string) string {
+	pk := p.Pkg(rel)
+	if pk == nil {
+		return ""
+	}
+	o := pk.Types.Scope().Lookup(name)
+	c, ok := o.(*types.Const)
+	if !ok {
+		return ""
+	}
+	return c.Val().ExactString()
+}
